@@ -42,7 +42,7 @@ func (c01) Decode(raw json.RawMessage) (any, error) {
 	return &s, err
 }
 
-var lvlNoMax = []string{"NONE", "VERBOSE", "TRACE", "DEBUG", "INFO", "NOTICE", "WARN", "AUDIT", "ERROR", "PANIC", "CRIT", "FATAL", "TOP", "ALL", "NOTE", "REVIEW"}
+var lvlNoMax = []string{"NONE", "VERBOSE", "TRACE", "DEBUG", "INFO", "NOTICE", "WARN", "AUDIT", "ERROR", "PANIC", "CRIT", "FATAL", "TOP", "ALL", "NOTE", "REVIEW", "SHIFTY"}
 
 func randCase(rt *rapid.T, s string) string {
 	switch rapid.IntRange(0, 2).Draw(rt, "case") {
@@ -93,6 +93,16 @@ func (c01) Gen(rt *rapid.T, thorough bool) any {
 				s.Sys.Apps = append(s.Sys.Apps, AppSpec{Name: name, Type: "Rec"})
 				lg.Refs = append(lg.Refs, RefSpec{Ref: name, Level: genLevelRange(rt)})
 			}
+			if rapid.IntRange(0, 5).Draw(rt, "dup_ref") == 0 {
+				// one appender referenced twice by the same logger, for two disjoint explicit ranges
+				lg.Refs = []RefSpec{{Ref: fmt.Sprintf("a%dr0", i), Level: "TRACE~INFO"}, {Ref: fmt.Sprintf("a%dr0", i), Level: "ERROR~FATAL"}}
+				if nr > 1 && !strings.HasPrefix(s.Sys.Apps[len(s.Sys.Apps)-1].Name, "d") {
+					lg.Refs = append(lg.Refs, RefSpec{Ref: s.Sys.Apps[len(s.Sys.Apps)-1].Name, Level: "INFO~ERROR"})
+				}
+				if !hasApp(s.Sys.Apps, fmt.Sprintf("a%dr0", i)) {
+					s.Sys.Apps = append(s.Sys.Apps, AppSpec{Name: fmt.Sprintf("a%dr0", i), Type: "Rec"})
+				}
+			}
 			if lg.Type == "AsyncLogger" {
 				lg.BufferSize = rapid.SampledFrom([]int{0, 100, 500}).Draw(rt, "bufsize")
 				lg.Policy = rapid.SampledFrom([]string{"", "Block", "Discard"}).Draw(rt, "pol")
@@ -136,6 +146,15 @@ func (c01) Gen(rt *rapid.T, thorough bool) any {
 		s.Events = append(s.Events, evs)
 	}
 	return s
+}
+
+func hasApp(apps []AppSpec, name string) bool {
+	for _, a := range apps {
+		if a.Name == name {
+			return true
+		}
+	}
+	return false
 }
 
 func (c01) Run(x *Exec, scn any) {
@@ -232,6 +251,15 @@ func (c01) Run(x *Exec, scn any) {
 				if strings.HasPrefix(r.Ref, "d") {
 					continue // Discard appender
 				}
+				first := true
+				for k := 0; k < j; k++ {
+					if lg.Refs[k].Ref == r.Ref {
+						first = false
+					}
+				}
+				if !first {
+					continue // an appender referenced twice is one sink: judged with its first reference
+				}
 				got, lvl := map[string]int{}, map[string]string{}
 				for _, it := range getRec(r.Ref).snapshot() {
 					id, _ := itemID(it)
@@ -246,7 +274,20 @@ func (c01) Run(x *Exec, scn any) {
 					}
 				}
 				rng := rr[j]
-				sinks = append(sinks, sink{name: fmt.Sprintf("%s(ref %q of %s, effective [%d,%d))", r.Ref, r.Level, lg.Name, rng.Min, rng.Max), want: func(c int32) bool { return rng.has(c) }, got: got, lvl: lvl})
+				var mine []mRange // the (disjoint) ranges of all references to this appender
+				for k := range lg.Refs {
+					if lg.Refs[k].Ref == r.Ref {
+						mine = append(mine, rr[k])
+					}
+				}
+				sinks = append(sinks, sink{name: fmt.Sprintf("%s(ref %q of %s, effective [%d,%d), %d references)", r.Ref, r.Level, lg.Name, rng.Min, rng.Max, len(mine)), want: func(c int32) bool {
+					for _, m := range mine {
+						if m.has(c) {
+							return true
+						}
+					}
+					return false
+				}, got: got, lvl: lvl})
 			}
 		case "Console":
 			sinks = append(sinks, sink{name: "console of " + lg.Name, want: func(int32) bool { return true }, got: stdoutIDs})
